@@ -6,7 +6,7 @@
    witness order is then CONFIRMED by running the extracted sequential model on it), for locked
    section exclusivity, deadlock / livelock / lock leaks, and for unordered conflicting accesses to
    the lock list (happens-before over the event trace)."""
-import os, subprocess, sys, re, hashlib, itertools, concurrent.futures, json
+import os, subprocess, sys, re, hashlib, itertools, concurrent.futures, json, threading
 
 V = os.path.dirname(os.path.dirname(os.path.abspath(__file__)))
 REPO = os.environ.get('VERIF_REPO', '/repo')
@@ -415,6 +415,12 @@ def directed_variants(script, out, fail_line, max_variants=6):
                 return res
     return res
 
+def _rm(path):
+    try:
+        os.unlink(path)
+    except FileNotFoundError:
+        pass
+
 def run_one(args):
     binary, script, tag, keep_dir, do_confirm = args
     os.makedirs(keep_dir, exist_ok=True)
@@ -454,10 +460,10 @@ def run_one(args):
     if fl['locks_free'] is False:
         res['problems'].append(('C04', 'a lock is still held after every thread finished'))
     # trace inclusion in the extracted L2 model
-    op = path + '.out'
+    op = path + '.%d.out' % threading.get_ident()
     open(op, 'w').write(out)
     rr = subprocess.run([DRV, '--conc', op], capture_output=True, text=True, timeout=120)
-    os.unlink(op)
+    _rm(op)
     rep = [l for l in rr.stdout.split('\n') if l.startswith('REPLAY-FAIL')]
     res['replayed'] = not rep
     if rep:
@@ -471,7 +477,8 @@ def run_one(args):
         res['known'].append(('C03', 'lock-list-tail-race', 'unsynchronised read of the lock list (%s) concurrent with emplace_back: events %s' % (races[0][4], races[0][:2])))
     # data accesses against the happens-before model (extracted MemDefs.v)
     memmode = os.environ.get('VERIF_T2_MEM', '1')
-    if memmode == '1' or (memmode == 'random' and not tag.startswith('sweep')):
+    ordinary_sweep = tag.startswith('sweep_')     # single-preemption sweeps: hundreds of near-identical runs
+    if (memmode == '1' and (not ordinary_sweep or int(h, 16) % 4 == 0)) or (memmode == 'random' and not tag.startswith('sweep')):
         lb = int(re.search(r'^cfg (\d+) (\d+)', script, flags=re.M).group(2))
         mc = mem_check(run['trace'], run['arrs0'], lb)
         res['mem'] = dict(naccess=mc.get('naccess', 0), orders=mc.get('orders'))
@@ -506,10 +513,10 @@ def run_one(args):
         hdr = [l for l in body if l.startswith('cfg') or l.startswith('key')]
         rest = [l for l in body if l and not (l.startswith('cfg') or l.startswith('key'))]
         full = hdr + ['0 new %s' % (initl[0].split()[1] if initl else '4')] + ['0 ' + ' '.join(p) for p in pre] + rest
-        sp = path + '.seq'
+        sp = path + '.%d.seq' % threading.get_ident()
         open(sp, 'w').write('\n'.join(full) + '\n')
         mr = subprocess.run([DRV, sp], capture_output=True, text=True, timeout=120)
-        os.unlink(sp)
+        _rm(sp)
         # compare the model's results of the linearized ops with the concurrent results
         mres = [l[2:].split() for l in mr.stdout.split('\n') if l.startswith('R ')]
         mops = [l.split()[2:] for l in mr.stdout.split('\n') if l.startswith('#')]
@@ -541,7 +548,7 @@ def run_one(args):
         if not conf:
             res['confirm_detail'] = dict(want=want, model_ops=mops, model_res=mres, seq=full)
     if not res['problems'] and res.get('replayed', True) and res.get('confirmed') is not False:
-        os.unlink(path)
+        _rm(path)
     return res
 
 def run_many(jobs, workers=16):
